@@ -164,7 +164,7 @@ def _tab_ok(got, want, tol=None):
         for j, (n, d) in enumerate(row):
             if d == 0:
                 return False
-            if abs(got[i, j] - n / d) > tol * max(1.0, abs(n / d)):
+            if not (abs(got[i, j] - n / d) <= tol * max(1.0, abs(n / d))):
                 return False
     return True
 
@@ -202,7 +202,7 @@ def _check_obj(obj, exp, conc):
         except KeyError:
             return "state_names"
         n, d = c["v"]
-        if d == 0 or abs(float(vals[idx]) - n / d) > TOL * max(1.0, abs(n / d)):
+        if d == 0 or not (abs(float(vals[idx]) - n / d) <= TOL * max(1.0, abs(n / d))):
             return "value"
     if exp["kind"] == "cpd" and not _tab_ok(_to_np(obj.get_values()), exp["tab"]):
         return "get_values"
